@@ -26,6 +26,8 @@ macro_rules! c13_resolve {
 }
 c13_resolve!(c13_tools_resolve_len2, 2, 6);
 c13_resolve!(c13_tools_resolve_len3, 3, 7);
+// 4 bytes is the shortest length at which `..` can sit in a NON-first component (`a/..`, `./..`): seed C13c needs it
+c13_resolve!(c13_tools_resolve_len4, 4, 8);
 c13_resolve!(c13t_tools_resolve_len5, 5, 9);
 
 #[kani::proof]
